@@ -182,3 +182,19 @@ def short(v: Any, n: int = 300) -> str:
     except Exception:
         s = repr(v)
     return s if len(s) <= n else s[:n] + f'...(+{len(s) - n})'
+
+
+# ---- cheap (single draw) strategies for hot paths ---------------------------------------------------
+# Hypothesis costs ~40us per draw and ~2 ms for a recursive JSON value; the per-element generators of the
+# dispatcher checks would otherwise be 50x more expensive than the code under test.
+
+BIG_POOL = [int('7' * 50), -int('9' * 100), int('1' + '0' * 640), int('7' * 4299), -int('7' * 4299)]
+ID_POOL = VALID_ID_EDGES + [4, 5, -2, 2**31, 'a', 'b', 'x' * 40, '\x00', '\n']
+
+
+def cheap_value() -> st.SearchStrategy:
+    return st.sampled_from(POOL + BIG_POOL)
+
+
+def cheap_call_id() -> st.SearchStrategy:
+    return st.sampled_from(ID_POOL)
